@@ -3,4 +3,5 @@ package main
 // genAll calls every other generator; each lives in its own file.
 func genAll() {
 	genHashes()
+	genPersist()
 }
